@@ -21,22 +21,28 @@ from native import c02, c20sdk, c30
 HERE = pathlib.Path(__file__).resolve().parent
 
 
-def _constants_model() -> str:
-    saved = c30.INT_VALUES
+def _constants_model(ascii_only: bool = False) -> str:
+    saved = (c30.INT_VALUES, c30.STR_VALUES, c30.ENUM_VALUES)
     try:
         c30.INT_VALUES = [0, 1, 7, 2 ** 31, 2 ** 63 - 1]  # beyond 64 bits the Java target reports an error
+        if ascii_only:
+            c30.STR_VALUES = [v for v in c30.STR_VALUES if v.isascii()]
+            c30.ENUM_VALUES = [v for v in c30.ENUM_VALUES if v.isascii()]
         return c30.build_model()[0]
     finally:
-        c30.INT_VALUES = saved
+        c30.INT_VALUES, c30.STR_VALUES, c30.ENUM_VALUES = saved
 
 
-def _models() -> List[Tuple[str, str]]:
+def _models(ascii_only: bool = False) -> List[Tuple[str, str]]:
     # "*/" in a description ends a Javadoc comment (recorded finding): it gets a model of its own so that it does not
     # hide what the other texts do to the same files
     others = [x for x in c20sdk.DESCRIPTIONS if "*/" not in x]
-    out = [("hostile texts (native/c20sdk.py) without the description that contains */", c20sdk.build_model(others)),
-           ("hostile texts (native/c20sdk.py), all descriptions", c20sdk.build_model()),
-           ("constants of every primitive type (native/c30.py, integers within 64 bits)", _constants_model()),
+    # the C++ generator refuses non-ASCII texts in narrow literals (recorded finding of C02): ASCII texts only there
+    values = [v for v in c20sdk.VALUES if v.isascii()] if ascii_only else None
+    out = [("hostile texts (native/c20sdk.py) without the description that contains */",
+            c20sdk.build_model(others, values)),
+           ("hostile texts (native/c20sdk.py), all descriptions", c20sdk.build_model(None, values)),
+           ("constants of every primitive type (native/c30.py, integers within 64 bits)", _constants_model(ascii_only)),
            ("base model 2 of native/c02.py", c02.BASE2)]
     for what, text in c02.signature_models():
         if "with 2 argument" in what or "with 3 argument" in what or "with 0 argument" in what:
